@@ -234,22 +234,22 @@ def body_fault(scn: int, k: int, kind: int, persist: bool) -> bool:
         if " EXCEPTION " not in line:
             continue
         m = LOGLINE.match(line)
-        hx.require(m is not None, "C20:malformed-exception-log", line[:200])
+        hx.require(m is not None, "C20:malformed-exception-log", lambda: line[:200])
         cls = m.group(4)
         if cls == "FileNotFound":
             continue
-        hx.require(w.fired > 0, "C20:exception-without-fault", "%s: %s" % (name, line[:200]))
-        hx.require(cls == injected, "C20:logged-as-other-class:%s" % cls, "%s k=%d injected=%s line=%s" % (name, k, injected, line[:200]))
-        hx.require(m.group(1) == ADDR[0], "C20:log-without-client-address", line[:200])
+        hx.require(w.fired > 0, "C20:exception-without-fault", lambda: "%s: %s" % (name, line[:200]))
+        hx.require(cls == injected, "C20:logged-as-other-class:%s" % cls, lambda: "%s k=%d injected=%s line=%s" % (name, k, injected, line[:200]))
+        hx.require(m.group(1) == ADDR[0], "C20:log-without-client-address", lambda: line[:200])
         seen_injected = True
     if w.fired:
-        hx.require(seen_injected, "C20:failure-not-logged", "%s k=%d kind=%s logs=%r" % (name, k, injected, logs[-3:]))
+        hx.require(seen_injected, "C20:failure-not-logged", lambda: "%s k=%d kind=%s logs=%r" % (name, k, injected, logs[-3:]))
     # every file handed out by the VFS is closed
     h = None
     gc.collect()
     for sel, f in _OPENED:
         closed = getattr(f, "closed", None)
-        hx.require(closed is not False, "C20:file-left-open", "%s: %s still open after handle (k=%d kind=%s)" % (name, sel, k, injected))
+        hx.require(closed is not False, "C20:file-left-open", lambda: "%s: %s still open after handle (k=%d kind=%s)" % (name, sel, k, injected))
     return True
 
 
@@ -321,12 +321,12 @@ def body_worker(forking: bool, kind: int, tlsctx: bool, wrapfail: bool) -> bool:
     finally:
         srvmod.os = saved
     hx.reach()
-    hx.require("handle_error" in events, "C20:worker-error-not-reported", "events=%r" % (events,))
-    hx.require("shutdown" in events and events.index("shutdown") > events.index("handle_error"), "C20:no-shutdown-after-error", "events=%r" % (events,))
+    hx.require("handle_error" in events, "C20:worker-error-not-reported", lambda: "events=%r" % (events,))
+    hx.require("shutdown" in events and events.index("shutdown") > events.index("handle_error"), "C20:no-shutdown-after-error", lambda: "events=%r" % (events,))
     if forking:
-        hx.require(events[-1] == "exit1", "C20:child-exit-status", "events=%r" % (events,))
+        hx.require(events[-1] == "exit1", "C20:child-exit-status", lambda: "events=%r" % (events,))
     if tlsctx and wrapfail:
-        hx.require("finish" not in events, "C20:served-after-failed-handshake", "events=%r" % (events,))
+        hx.require("finish" not in events, "C20:served-after-failed-handshake", lambda: "events=%r" % (events,))
     return True
 
 
